@@ -86,7 +86,7 @@ func (data *Data) CreateDataNode(addr, tcpAddr string) error {
 	// then these nodes are actually the same so re-use the existing ID
 	var existingID uint64
 	for _, n := range data.MetaNodes {
-		if n.TCPAddr == tcpAddr {
+		if n.TCPAddr == tcpAddr && data.DataNode(n.ID) == nil {
 			existingID = n.ID
 			break
 		}
